@@ -252,7 +252,7 @@ func raceV1(c Cfg, n, capIn int) {
 	feedback := vrt.MakeChan[uint](c.FbCap)
 	o := prio1.Opts[*raceItem]{Divider: prio1.FairDivider, Feedback: feedback, HandlersQuantity: c.H, Inputs: inputs, Output: output}
 	var cancel vcontext.CancelFunc
-	if c.Stop == "cancel" {
+	if c.Stop == "cancel" || c.Stop == "both" {
 		o.Ctx, cancel = vcontext.WithCancel(vcontext.Background())
 	}
 	d, err := prio1.New(o)
@@ -269,13 +269,30 @@ func raceV1(c Cfg, n, capIn int) {
 			}
 		})
 	}
+	// control operations must not be issued once termination has begun (that
+	// panics by design): the graceful stop waits for the control threads
+	ctlDone := vrt.MakeChan[struct{}](2)
+	nctl := 0
 	if c.Script > 0 {
+		nctl++
 		extra := vrt.MakeChan[*raceItem](1)
 		vrt.Spawn("control", func() {
 			d.AddInput(extra, c.P[0]+1)
 			vrt.Send(extra, &raceItem{P: int(c.P[0]) + 1})
 			d.RemoveInput(c.P[len(c.P)-1])
 			vrt.Close(extra)
+			vrt.Send(ctlDone, struct{}{})
+		})
+	}
+	if c.Script > 1 {
+		// a second goroutine adding and removing concurrently with the first
+		nctl++
+		extra2 := vrt.MakeChan[*raceItem](1)
+		vrt.Spawn("control2", func() {
+			d.AddInput(extra2, c.P[0]+2)
+			d.RemoveInput(c.P[0] + 2)
+			vrt.Close(extra2)
+			vrt.Send(ctlDone, struct{}{})
 		})
 	}
 	switch c.Stop {
@@ -283,11 +300,20 @@ func raceV1(c Cfg, n, capIn int) {
 		vrt.Spawn("stopper", func() { d.Stop() })
 	case "cancel":
 		vrt.Spawn("stopper", func() { cancel() })
+	case "both":
+		vrt.Spawn("stopper", func() { d.Stop() })
+		vrt.Spawn("canceller", func() { cancel() })
 	default:
-		vrt.Spawn("graceful", func() { d.GracefulStop() })
+		vrt.Spawn("graceful", func() {
+			for i := 0; i < nctl; i++ {
+				vrt.Recv(ctlDone)
+			}
+			d.GracefulStop()
+		})
 	}
 	errs := d.Err()
 	vrt.Spawn("errreader", func() { vrt.Recv2(errs) })
+	vrt.Spawn("errreader2", func() { vrt.Recv2(d.Err()) })
 }
 
 func raceS1(c Cfg, n, capIn int) {
